@@ -23,7 +23,7 @@ META = {
     "bounds": profiles.BOUNDS_TEXT,
     "outside": profiles.OUTSIDE + ["PYTHONHASHSEED (affects str hashes only; the scan reports any set/dict of strings iterated on the simulation path)"],
 }
-REQUIRED_COVERS = {"any": ["order:permuted", "order:same-step-zero-ff", "repeat", "hidden:after-insert", "scan:ok"]}
+REQUIRED_COVERS = {"any": ["order:permuted", "order:same-step-zero-ff", "repeat", "hidden:after-insert", "scan:ok", "after-cut:inside"]}
 
 
 def scan_unordered():
@@ -123,6 +123,26 @@ def hidden(p, ctx):
     ctx.nontrivial = M2.project.time >= 2
 
 
+def after_cut(p, ctx):
+    """A complete simulate() after a run that was cut short by max_time equals a fresh complete run."""
+    spec = p["spec"]
+    with Sim(ctx):
+        A = build(spec, p, ctx.symbolic)
+        ok1, r = ctx.call(A.project.simulate, **dict(sim_kwargs(A), max_time=p["k"]))
+        ok2, r = _run(A, ctx)
+        B = build(spec, p, ctx.symbolic)
+        ok3, r = _run(B, ctx)
+        if ok1 and ok2 and ok3:
+            kdiff = diff_dumps(dump(B), dump(A))
+            if kdiff is not None:
+                ctx.fail("C09:after-cut-run:%s" % short_key(kdiff))
+                ctx.notes["differs_at"] = kdiff
+            if 0 < p["k"] < B.project.time:
+                ctx.cover("after-cut:inside")
+    ctx.sig = (concrete_sig(B), ctx.c(p["k"]))
+    ctx.nontrivial = True
+
+
 def scan(p, ctx):
     """Every unordered construct in pDESy/model is one the harness controls (set(...) of task/component objects)."""
     found = scan_unordered()
@@ -171,6 +191,14 @@ def obligations(tier, seed):
                 pr = [[n, max(lo, narrow[n][0]), min(hi, narrow[n][1])] if n in narrow else [n, lo, hi] for n, lo, hi in ob["params"]]
                 obs.append({"name": "order/" + ob["name"] + "/perm=" + "".join(map(str, pm)), "harness": "order", "cube": {"spec": ob["cube"]["spec"], "perm": pm},
                             "params": pr, "timeout": 600 if thorough else 120, "engine": "zsym"})
+    for kind in ("F1", "F2", "N2"):
+        for ob in profiles.p_product(kind, thorough, H=10):
+            if "wprule=0" not in ob["name"] or ("/fs" in ob["name"] and not thorough):
+                continue
+            narrow = {"cap0": (2, 3), "cap1": (1, 2), "fs0": (1, 1), "fs1": (1, 1), "z1": (1, 1), "z0": (1, 1)}
+            pr = [[n, max(lo, narrow[n][0]), min(hi, narrow[n][1])] if n in narrow else [n, lo, hi] for n, lo, hi in ob["params"]] + [["k", 0, 5]]
+            obs.append({"name": "aftercut/" + ob["name"], "harness": "after_cut", "cube": {"spec": ob["cube"]["spec"]}, "params": pr,
+                        "timeout": 600 if thorough else 120, "engine": "zsym"})
     for op in ("insert", "insert-remove", "backward"):
         for k in (0, 2):
             spec = {"tasks": [{"w": "$w0"}, {"w": "$w1"}], "edges": [[0, 1, k]], "teams": profiles.layout_workers("private", 2), "run": {"max_time": 10}}
